@@ -18,7 +18,15 @@ import (
 // Rng is splitmix64.
 type Rng struct{ s uint64 }
 
-func NewRng(seed uint64) *Rng { return &Rng{s: seed*0x9E3779B97F4A7C15 + 0x1234567} }
+// NewRng: the seed is mixed before it becomes the state.  (With state = seed*G + c and a step of +G the
+// stream of seed k+1 would be the stream of seed k minus its first output: a sweep over VERIF_SEED=1..n would
+// explore one stream at n offsets instead of n streams.)
+func NewRng(seed uint64) *Rng {
+	z := seed + 0x1234567
+	z = (z ^ (z >> 30)) * 0xBF58476D1CE4E5B9
+	z = (z ^ (z >> 27)) * 0x94D049BB133111EB
+	return &Rng{s: z ^ (z >> 31)}
+}
 func (r *Rng) U64() uint64 {
 	r.s += 0x9E3779B97F4A7C15
 	z := r.s
